@@ -72,6 +72,19 @@ func Hashers(thorough bool) []hasherCfg {
 	return out
 }
 
+// G1m has the digest bytes of G1 and another merkle-tree identifier: a different content hash.
+func G1m() *data.ContentHash_Graph {
+	g := GraphHash(1)
+	g.MerkleTree = 1
+	return g
+}
+
+// DataUniverse are the content hashes of the data scenario plus two that no event ever names.
+func DataUniverse() []*data.ContentHash {
+	return []*data.ContentHash{RawHash(1), RawHash(2), RawHash(3), {Graph: GraphHash(1)}, {Graph: GraphHash(2)}, {Graph: GraphHash(3)},
+		{Graph: G1m()}, RawHash(4), {Graph: GraphHash(4)}}
+}
+
 // DataSpec is the C16 scenario: one seed per injected hasher.
 func DataSpec(thorough bool) Spec {
 	var seeds []explore.Seed
@@ -114,6 +127,9 @@ func DataSpec(thorough bool) Spec {
 		fix(Msg("RegisterResolver(B,#1,R2+R3)", &data.MsgRegisterResolver{Signer: B.String(), ResolverId: 1, ContentHashes: []*data.ContentHash{hashes[1], hashes[2]}})),
 		fix(Msg("RegisterResolver(D,#2,R1+R2+R3)", &data.MsgRegisterResolver{Signer: D.String(), ResolverId: 2, ContentHashes: []*data.ContentHash{hashes[0], hashes[1], hashes[2]}})),
 		fix(Msg("Attest(C,G1+G2+G3)", &data.MsgAttest{Attestor: C.String(), ContentHashes: []*data.ContentHash_Graph{hashes[3].Graph, hashes[4].Graph, hashes[5].Graph}})),
+		// two content hashes with the same digest bytes in one message, and one of them alone
+		fix(Msg("Attest(B,G1+G1m)", &data.MsgAttest{Attestor: B.String(), ContentHashes: []*data.ContentHash_Graph{hashes[3].Graph, G1m()}})),
+		fix(Msg("Anchor(C,G1m)", &data.MsgAnchor{Sender: C.String(), ContentHash: &data.ContentHash{Graph: G1m()}})),
 		fix(Next(time.Second)), fix(Next(24*time.Hour)),
 	)
 	exp := map[string]bool{}
